@@ -110,6 +110,9 @@ class C07(Property):
         (RP, "DetectionRule.detect"), (RP, "DetectionRule.can_extend_to"), (RP, "Details.in_range"),
         (RP, "Parser._parse_rule"), (RP, "Parser._parse_superiors"), (RP, "DetectionRule.__init__"),
         (CP, "Ruleset.copy_with_replacements"), (CP, "Ruleset.__post_init__"), (LOC, "offset_location"),
+        (CP, "Ruleset.from_files"), (CP, "create_rules"), ("antismash/detection/hmm_detection/__init__.py", "check_options"),
+        ("antismash/detection/hmm_detection/__init__.py", "get_arguments"),
+        ("antismash/common/hmm_rule_parser/structures.py", "Multipliers"),
         (LOC, "connect_locations"), (LOC, "get_distance_between_locations"), (LOC, "locations_overlap"),
         (LOC, "location_contains_other"), (LOC, "location_bridges_origin"), (LOC, "make_forwards"),
         (LOC, "extend_location"),
@@ -139,9 +142,10 @@ class C07(Property):
             "base run reports a protocluster and some compared run cuts through a protocluster or changes the ruleset; distinct by canonical input")
     TRUSTED = ["HMMER hit production is not exercised: hits come from dynamic profiles (same hits for every rotation by gene name)",
                "two pass-through wrappers (find_protoclusters, remove_redundant_protoclusters) record arguments/results of the real functions",
-               "get_ruleset's option handling (strictness / limit-to options, data files) is exercised by C17, not here: rulesets are built "
-               "directly and, where the conditions can be written as rule text, a second time through rule_parser.Parser and "
-               "Ruleset.copy_with_replacements (the two must detect identically)",
+               "rulesets are built directly; where the conditions can be written as rule text, a second time through rule_parser.Parser and "
+               "Ruleset.copy_with_replacements (the two must detect identically); the `opt` runs go through the real option parsing, "
+               "hmm_detection.get_ruleset and run_on_record with the rule files of the strictness replaced by a file holding the case's rules, "
+               "the dynamic profiles by the case's, and HMMer hit production switched off (strictness levels and the shipped data files are C02's / C17's)",
                "Pipe.run takes definition CDSes as 'genes in the core with definition domains for the product' (what annotate_cds_features + "
                "Protocluster.add_cds amount to); GeneFunction bookkeeping itself is not modelled",
                "C06's model is entered at create_regions with the candidate clusters of C05's model (numbering dictionaries empty)"]
@@ -374,6 +378,69 @@ class C07(Property):
             rules.reverse()
         return {"len": length, "circ": True, "genes": genes, "rules": rules, "untamed": True}
 
+    def options_scenario(self, rng: random.Random) -> Dict[str, Any]:
+        """sub-selection through hmm_detection.get_ruleset: rules with kilobase distances, taxon fungi with fungal
+           multipliers (often != 1), gene gaps around the once- and the twice-scaled distances, a sequence of requests in
+           one process: the whole ruleset, restrictions by rule names and by categories, repetitions"""
+        cmul = rng.choice(["1.5", "1.5", "2.0", "1.0", "0.5", "1.25"])
+        nmul = rng.choice(["1.5", "1.5", "2.0", "1.0", "1.25"])
+        cm, nm = self.MULS[cmul], self.MULS[nmul]
+        nrules = rng.choice([2, 2, 3, 3, 4])
+        kb, rules, cat = [], [], []
+        conds = [["single", False, "a"], ["single", False, "b"], ["conj", [["single", False, "a"], ["single", False, "b"]]],
+                 ["single", False, "c"], ["minimum", False, 2, ["a", "b"]], ["group", False, [["single", False, "a"], ["single", False, "c"]]]]
+        for i in range(nrules):
+            ckb, nkb = rng.choice([2, 5, 5, 10, 20]), rng.choice([1, 2, 5, 10])
+            kb.append([ckb, nkb])
+            sup: List[str] = []
+            if i and rng.random() < 0.3:
+                first = rng.randrange(i)
+                sup = [f"r{first}"] + [x for x in rules[first]["sup"] if x != f"r{first}"]
+            rules.append({"name": f"r{i}", "cutoff": ckb * 1000 * cm[0] // cm[1], "nbhd": nkb * 1000 * nm[0] // nm[1],
+                          "cond": rng.choice(conds), "sup": sup,
+                          "ext": ["single", False, "x"] if rng.random() < 0.2 else None})
+            cat.append(rng.choice([0, 1]))
+        # genes: gaps around the unscaled, once-scaled and twice-scaled cutoffs / neighbourhoods
+        genes: List[Dict[str, Any]] = []
+        pos = rng.randrange(0, 3000)
+        for _ in range(rng.choice([3, 4, 5, 6, 7])):
+            glen = rng.choice([300, 1000, 1500])
+            hits = [[p, 0] for p in rng.sample(["a", "b", "c", "x"], rng.choice([1, 1, 2]))] if rng.random() < 0.8 else []
+            genes.append({"loc": simple(pos, pos + glen, rng.choice([1, -1])), "hits": hits, "hasres": bool(hits)})
+            i = rng.randrange(nrules)
+            if rng.random() < 0.6:
+                c0 = kb[i][0] * 1000
+                marks = [c0, c0 * cm[0] // cm[1], c0 * cm[0] * cm[0] // (cm[1] * cm[1])]
+            else:
+                n0 = kb[i][1] * 1000
+                marks = [n0, n0 * nm[0] // nm[1], n0 * nm[0] * nm[0] // (nm[1] * nm[1])]
+            lo, hi = min(marks), max(marks)
+            gap = rng.choice([marks[1] - 1, marks[1], marks[1] + 1, (marks[1] + marks[2]) // 2, marks[2] - 1, marks[2] + 1,
+                              (lo + hi) // 2, lo - 1, 200, hi + 2000])
+            pos += glen + max(gap, 0)
+        span = pos
+        circ = rng.random() < 0.4
+        length = 3 * span + 5000 if circ else span + rng.choice([0, 1000, 50000])
+        rng.shuffle(genes)
+        for n, g in enumerate(genes):
+            g["n"] = n
+        names = [r["name"] for r in rules]
+        requests: List[Dict[str, Any]] = [{"names": [], "cats": []}]
+        for _ in range(rng.choice([2, 3, 4])):
+            r = rng.random()
+            if r < 0.45:
+                requests.append({"names": sorted(rng.sample(names, rng.randrange(1, len(names) + 1))), "cats": []})
+            elif r < 0.7:
+                requests.append({"names": [], "cats": [rng.choice([0, 1])]})
+            elif r < 0.8:
+                requests.append({"names": sorted(rng.sample(names, rng.randrange(1, len(names) + 1))), "cats": [rng.choice([0, 1])]})
+            else:
+                requests.append(dict(rng.choice(requests)))
+        if rng.random() < 0.4:
+            requests[rng.randrange(len(requests))]["check"] = True
+        return {"len": length, "circ": circ, "genes": genes, "rules": rules, "untamed": True,
+                "opt": {"cmul": cmul, "nmul": nmul, "kb": kb, "cat": cat, "requests": requests}}
+
     def rotations(self, rng: random.Random, case: Dict[str, Any], cap: int, every: bool) -> List[int]:
         length = case["len"]
         if not case["circ"] or length < 2:
@@ -435,7 +502,7 @@ class C07(Property):
         return case
 
     def cases(self, rng: random.Random, tier: str, deep: bool) -> Iterator[Dict[str, Any]]:
-        n = 1900 if deep else 500
+        n = 1800 if deep else 400
         cap = 24 if deep else 12
         for i in range(n):
             r = rng.random()
@@ -447,9 +514,11 @@ class C07(Property):
                 case = self.d1_scenario(rng)
             elif r < 0.64:
                 case = self.neighbour_scenario(rng)
-            elif r < 0.72:
+            elif r < 0.70:
                 case = self.extender_chain_scenario(rng)
-            elif r < 0.78:
+            elif r < 0.76:
+                case = self.options_scenario(rng)
+            elif r < 0.82:
                 case = self.gen.targeted_case(rng)
             else:
                 case = self.gen.random_case(rng)
@@ -586,8 +655,10 @@ class C07(Property):
         return cp.Ruleset(tuple(rules), {}, "", {"cat"}, "tool",
                           dynamic_profiles={p: mkprof(p) for p in profs}, equivalence_groups=[])
 
-    def one_run(self, case: Dict[str, Any], genes: List[Dict[str, Any]], ruleset: Any, idxs: List[int]) -> Dict[str, Any]:
-        """the real pipeline on one layout / ruleset; canonical dump"""
+    def one_run(self, case: Dict[str, Any], genes: List[Dict[str, Any]], ruleset: Any, idxs: List[int],
+                options: Any = None) -> Dict[str, Any]:
+        """the real pipeline on one layout / ruleset; canonical dump.  With `options` the module entry point
+           hmm_detection.run_on_record is used (it fetches the ruleset through get_ruleset and annotates itself)"""
         from antismash.common.hmm_rule_parser import cluster_prediction as cp
         from antismash.common.secmet.test.helpers import DummyCDS, DummyRecord
         from antismash.common.secmet.locations import location_contains_other
@@ -602,7 +673,11 @@ class C07(Property):
         out["order"] = [gid(cds.get_name()) for cds in rec.get_cds_features()]
         _CAPTURE.clear()
         try:
-            res = cp.detect_protoclusters_and_signatures(rec, ruleset)
+            if options is not None:
+                from antismash.detection import hmm_detection
+                res = hmm_detection.run_on_record(rec, None, options).rule_results
+            else:
+                res = cp.detect_protoclusters_and_signatures(rec, ruleset)
         except Exception as exc:  # pylint: disable=broad-except
             out.update({"err": err_kind(exc), "stage": "detect", "msg": str(exc)[:200]})
             return out
@@ -632,7 +707,8 @@ class C07(Property):
         clusters.sort(key=lambda c: (c["rule"], repr(c["core"]), repr(c["loc"])))
         out["clusters"] = clusters
         try:
-            res.annotate_cds_features()
+            if options is None:
+                res.annotate_cds_features()
             for pc in res.protoclusters:
                 rec.add_protocluster(pc)
             rec.create_candidate_clusters()
@@ -686,7 +762,109 @@ class C07(Property):
                 runs.append({"err": "build:" + err_kind(exc), "msg": str(exc)[:200], "kind": "var", "k": 0, "rules": idxs})
                 continue
             runs.append(dict(self.one_run(case, case["genes"], rs, idxs), kind="var", k=0, rules=idxs))
+        if case.get("opt"):
+            try:
+                runs.extend(self.opt_runs(case))
+            except Exception as exc:  # pylint: disable=broad-except
+                runs.append({"err": "build:" + err_kind(exc), "msg": str(exc)[:200], "kind": "opt", "k": 0, "rules": []})
         return {"runs": runs}
+
+    MULS = {"1.0": (1, 1), "1.5": (3, 2), "2.0": (2, 1), "0.5": (1, 2), "1.25": (5, 4)}
+
+    def opt_selected(self, case: Dict[str, Any], req: Dict[str, Any]) -> List[int]:
+        cats = self.opt_categories()
+        out = []
+        for i, r in enumerate(case["rules"]):
+            cat = cats[case["opt"]["cat"][i]]
+            if (not req["names"] or r["name"] in req["names"]) and (not req["cats"] or cat in [cats[c] for c in req["cats"]]):
+                out.append(i)
+        return out
+
+    @staticmethod
+    def opt_categories() -> List[str]:
+        from antismash.detection import hmm_detection
+        return sorted(hmm_detection.CATEGORIES)[:2]
+
+    def opt_runs(self, case: Dict[str, Any]) -> List[Dict[str, Any]]:
+        """sub-selection the way a user does it: rule file on disk, options parsed by antiSMASH's own config code,
+           `hmm_detection.get_ruleset` (taxon fungi, fungal multipliers, --hmmdetection-limit-to-rule-names/-categories),
+           several requests in one process (module-level ruleset cache), detection through `run_on_record`.
+           Replaced for the purpose: the rule files of the strictness (a temporary file with the case's rules, distances in
+           kilobases), the dynamic profiles (the case's), and HMMer hit production (none: no binaries)"""
+        import os
+        import tempfile
+        from antismash.common.hmm_rule_parser import cluster_prediction as cp
+        from antismash.common.hmm_rule_parser.structures import DynamicHit, DynamicProfile
+        from antismash.config import build_config, destroy_config
+        from antismash.detection import hmm_detection
+        opt = case["opt"]
+        order = self.parsed_order(case)
+        if order is None:
+            return []
+        cats = self.opt_categories()
+        lines = []
+        for i in order:
+            r = case["rules"][i]
+            text = f"RULE {r['name']} CATEGORY {cats[opt['cat'][i]]}"
+            if r["sup"]:
+                text += " SUPERIORS " + ", ".join(r["sup"])
+            text += f" CUTOFF {opt['kb'][i][0]} NEIGHBOURHOOD {opt['kb'][i][1]} CONDITIONS {common.cond_str(r['cond'])}"
+            if r["ext"] is not None:
+                text += f" EXTENDERS {common.cond_str(r['ext'])}"
+            lines.append(text)
+        profs = self.profiles(case)
+        table: Dict[str, Dict[str, List[Any]]] = {p: {} for p in profs}
+        for g in case["genes"]:
+            name = f"g{g['n']}"
+            for p, s2 in g["hits"]:
+                table[p].setdefault(name, []).append(DynamicHit(name, p, bitscore=s2 / 2))
+            if g["hasres"] and not g["hits"]:
+                table[profs[0]].setdefault(name, [])
+        dyn = {p: DynamicProfile(p, "d", (lambda q: lambda record, hmmer: {k: list(v) for k, v in table[q].items()})(p))
+               for p in profs}
+        handle, path = tempfile.mkstemp(suffix=".txt", prefix="c07_rules_")
+        with os.fdopen(handle, "w") as out:
+            out.write("\n".join(lines) + "\n")
+        saved = (hmm_detection._get_rule_files_for_strictness, hmm_detection.DYNAMIC_PROFILES, cp.find_hmmer_hits)
+        runs: List[Dict[str, Any]] = []
+        handed: List[Any] = []
+        try:
+            hmm_detection._get_rule_files_for_strictness = lambda strictness: [path]
+            hmm_detection.DYNAMIC_PROFILES = dyn
+            cp.find_hmmer_hits = lambda *args, **kwargs: {}
+            hmm_detection._RULESETS.clear()
+            for req in opt["requests"]:
+                idxs = self.opt_selected(case, req)
+                args = ["--taxon", "fungi", "--hmmdetection-fungal-cutoff-multiplier", opt["cmul"],
+                        "--hmmdetection-fungal-neighbourhood-multiplier", opt["nmul"]]
+                if req["names"]:
+                    args += ["--hmmdetection-limit-to-rule-names", ",".join(req["names"])]
+                if req["cats"]:
+                    args += ["--hmmdetection-limit-to-rule-categories", ",".join(cats[c] for c in req["cats"])]
+                try:
+                    destroy_config()
+                    options = build_config(args, isolated=True, modules=[hmm_detection])
+                    issues = hmm_detection.check_options(options) if req.get("check") else []
+                    ruleset = hmm_detection.get_ruleset(options)
+                except Exception as exc:  # pylint: disable=broad-except
+                    runs.append({"err": "build:" + err_kind(exc), "msg": str(exc)[:200], "kind": "opt", "k": 0, "rules": idxs})
+                    handed.append(None)
+                    continue
+                run = dict(self.one_run(case, case["genes"], ruleset, idxs, options=options), kind="opt", k=0, rules=idxs)
+                run["issues"] = [str(i)[:120] for i in issues]
+                run["dist"] = sorted([r.name, int(r.cutoff), int(r.neighbourhood)] for r in ruleset.rules)
+                runs.append(run)
+                handed.append(ruleset)
+            # the rule objects are mutable and may be shared: read every ruleset again after the last request
+            for run, ruleset in zip(runs, handed):
+                if ruleset is not None:
+                    run["final_dist"] = sorted([r.name, int(r.cutoff), int(r.neighbourhood)] for r in ruleset.rules)
+        finally:
+            hmm_detection._get_rule_files_for_strictness, hmm_detection.DYNAMIC_PROFILES, cp.find_hmmer_hits = saved
+            hmm_detection._RULESETS.clear()
+            destroy_config()
+            os.unlink(path)
+        return runs
 
     @staticmethod
     def bases(loc: Dict[str, Any]) -> List[List[int]]:
@@ -736,7 +914,15 @@ class C07(Property):
             regs = [[self.stranded(loc), ids] for loc, ids in run["regs"]] if "regs" in run else None
             runs.append({"genes": genes, "order": run["order"], "rules": run["rules"], "impl": impl,
                          "areas": areas, "regions": regs, "k": run["k"] if run["kind"] == "rot" else 0})
-        return {"len": case["len"], "circ": case["circ"], "rules": case["rules"], "runs": runs}
+        line: Dict[str, Any] = {"len": case["len"], "circ": case["circ"], "rules": case["rules"], "runs": runs}
+        if case.get("opt") and self.parsed_order(case) is not None:
+            o = case["opt"]
+            cats = self.opt_categories()
+            line["opt"] = {"rules": [[case["rules"][i]["name"], cats[o["cat"][i]], o["kb"][i][0] * 1000, o["kb"][i][1] * 1000]
+                                     for i in self.parsed_order(case)],
+                           "reqs": [{"names": q["names"], "cats": [cats[c] for c in q["cats"]]} for q in o["requests"]],
+                           "cmul": list(self.MULS[o["cmul"]]), "nmul": list(self.MULS[o["nmul"]])}
+        return line
 
     # ------------------------------------------------------------------ judge
     @staticmethod
@@ -850,6 +1036,16 @@ class C07(Property):
             if msg:
                 corr_detail = f"[{run['kind']} k={run['k']} rules={run['rules']}] {msg}"
                 break
+        # C02's heap model of get_ruleset on the same request sequence
+        if not corr_detail and drv.get("opt"):
+            opt_runs = [r for r in runs if r["kind"] == "opt"]
+            for n, (run, at_use, final) in enumerate(zip(opt_runs, drv["opt"]["at_use"], drv["opt"]["final"])):
+                if "dist" not in run:
+                    continue
+                if sorted(at_use) != run["dist"] or sorted(final or []) != run.get("final_dist"):
+                    corr_detail = (f"[opt request {n}] ruleset model: handed out {sorted(at_use)}, after the last request {final}; "
+                                   f"implementation: {run['dist']}, {run.get('final_dist')}")
+                    break
         corr = not corr_detail
 
         def half(run: Dict[str, Any], d: Dict[str, Any]) -> bool:
@@ -945,6 +1141,21 @@ class C07(Property):
             else:
                 idxs = run["rules"]
                 vnames = [names[i] for i in idxs]
+                if run["kind"] == "opt":
+                    # the ruleset came from hmm_detection.get_ruleset: every rule it holds has the distances of the rule file
+                    # scaled once by the fungal multipliers — the same in every sub-selection, now and after later requests
+                    if run.get("err", "").startswith("build:"):
+                        failures.append((None, f"{label} get_ruleset / option handling raised: {run.get('msg')}"))
+                        continue
+                    want = sorted([names[i], case["rules"][i]["cutoff"], case["rules"][i]["nbhd"]] for i in idxs)
+                    if run.get("issues"):
+                        failures.append((None, f"{label} check_options objects to a valid sub-selection: {run['issues']}"))
+                        continue
+                    if run.get("dist") != want or run.get("final_dist") != want:
+                        failures.append((None, f"{label} the distances of a rule depend on the sub-selection (expected [name, cutoff, "
+                                               f"neighbourhood] {want}; ruleset handed out {run.get('dist')}; the same ruleset after the "
+                                               f"last request {run.get('final_dist')})"))
+                        continue
                 if "err" in run or "err" in base:
                     if run.get("err") == base.get("err") and run.get("stage") == base.get("stage"):
                         tags.append("both-raise")
@@ -1014,6 +1225,11 @@ class C07(Property):
             for v in variants:
                 yield dict(case, rots=[], variants=[v], parsed=False)
             yield dict(case, rots=[], variants=[])
+        if case.get("opt"):
+            reqs = case["opt"]["requests"]
+            for i in range(len(reqs)):
+                if len(reqs) > 1:
+                    yield dict(case, opt=dict(case["opt"], requests=reqs[:i] + reqs[i + 1:]))
         for i in range(len(case["genes"])):
             yield dict(case, genes=case["genes"][:i] + case["genes"][i + 1:])
         n = len(case["rules"])
@@ -1029,7 +1245,12 @@ class C07(Property):
                     if tuple(v) not in seen:
                         seen.add(tuple(v))
                         uniq.append(v)
-                yield dict(case, rules=rest, variants=uniq)
+                shrunk = dict(case, rules=rest, variants=uniq)
+                if case.get("opt"):
+                    o = case["opt"]
+                    shrunk["opt"] = dict(o, kb=o["kb"][:i] + o["kb"][i + 1:], cat=o["cat"][:i] + o["cat"][i + 1:],
+                                         requests=[dict(q, names=[x for x in q["names"] if x != name]) for q in o["requests"]])
+                yield shrunk
         for i, r in enumerate(case["rules"]):
             if r["ext"] is not None:
                 yield dict(case, rules=case["rules"][:i] + [dict(r, ext=None)] + case["rules"][i + 1:])
